@@ -178,8 +178,8 @@ theorem L_phaseCase (c : Cfg) (s : St) (hlt : s.outer ≤ taskLoopBound) (ha : s
     · rename_i hh; exact ⟨(deliver_ctl c s).2, fun h' => by rw [hh] at h'; cases h'⟩
     · exact L_afterPE c s _ (deliver_ctl c s).1 (deliver_ctl c s).2 hlt (Or.inl (by rw [deliver_again]; exact ha))
   · rw [pc12 c s h]
-    exact L_afterPE c s _ (by simp [sendPass, emit, liftF]) (by simp [sendPass, emit, liftF]) hlt
-      (Or.inl (by rw [sendPass_again]; exact ha))
+    exact L_afterPE c s _ (by simp [sendPassE, sendPass, emit, liftF]) (by simp [sendPassE, sendPass, emit, liftF]) hlt
+      (Or.inl (by rw [sendPassE_again]; exact ha))
   · rw [pc13 c s h]; split
     · split
       · exact L_afterPEd_true c s _ rfl rfl hlt (by simp [setRetry, liftF])
@@ -251,7 +251,26 @@ theorem F_phaseCase (c : Cfg) (s : St) (hd : PhaseData c s.view s.phase) (hf : F
     any_goals omega
     · -- UpFilter
       have hr : s.upstreamReset = false := (PhaseData_12_of c _ (by rw [← h]; exact hd)).2.1
+      have ho : c.env.oneway = false := (PhaseData_12_of c _ (by rw [← h]; exact hd)).2.2.2.2
       rw [pc12 c s h]
+      by_cases he : upfEnabled c (sendPass c s) = true
+      · -- the upstream reset raised during the sender pass is handled in place (no retry state: not retried), the pass goes on
+        have e2 : sendPassE c s = { sendPass c s with upstreamReset := true } := by simp [sendPassE, upfEvent, he]
+        rw [e2]
+        generalize hg2 : ({ sendPass c s with upstreamReset := true } : St) = g2
+        have g_r : g2.upstreamReset = true := by rw [← hg2]
+        have g_rs : g2.rs = none := by rw [← hg2]; show (sendPass c s).rs = none; rw [(sendPass_rs c s).1]; exact hrs
+        have g_p : g2.phase = 12 := by rw [← hg2]; show (sendPass c s).phase = 12; rw [sendPass_phase, h]
+        have g_o : g2.outer = s.outer := by rw [← hg2]; simp [sendPass, emit, liftF]
+        have g_x : g2.exhausted = s.exhausted := by rw [← hg2]; simp [sendPass, emit, liftF]
+        by_cases hc : g2.cleaned = true
+        · rw [afterPE_cleaned c _ hc]; exact F_ret_End c s _ g_x
+        · have hc : g2.cleaned = false := by simpa using hc
+          rw [afterPE_reset c _ hc g_r, if_neg (by simp [ho]), if_neg (by rw [resetRetry_none c _ g_rs]; simp),
+            if_neg (by rw [g_p]; decide)]
+          exact ⟨g_x, fun _ => ⟨g_o, by show 12 ≤ g2.phase + 1; omega, rfl⟩⟩
+      have e2 : sendPassE c s = sendPass c s := by simp [sendPassE, upfEvent, he]
+      rw [e2]
       exact F_plain c s _ (by simp [sendPass, emit, liftF]) (by simp [sendPass, emit, liftF])
         (by simpa [sendPass, emit, liftF] using hr) (by rw [sendPass_direct]; exact hdir)
         (by rw [sendPass_again]; exact hag) (by rw [sendPass_phase]; exact h12) (by rw [(sendPass_rs c s).1]; exact hrs)
